@@ -245,8 +245,13 @@ impl FaultMix {
                 },
             },
             5 => {
-                let span = if rng.chance(1, 4) { 700 } else { 4 };
-                let n = 1 + rng.usize_below(span);
+                // mostly a few bytes; sometimes hundreds; sometimes a length at which a narrow
+                // integer holding the byte or bit count wraps (2^8, 2^13 bytes = 2^16 bits, 2^16)
+                let n = match rng.below(8) {
+                    0 | 1 => 1 + rng.usize_below(700),
+                    2 => *rng.pick(&[255usize, 256, 257, 4096, 8191, 8192, 8193, 16384, 65535, 65536]),
+                    _ => 1 + rng.usize_below(4),
+                };
                 Fault::Extend { data: fill(rng, n).0 }
             }
             6 | 7 => {
